@@ -28,6 +28,7 @@ struct CallSpec
     int64_t sink_fail_after{-1};  // B_PRETTY: the output stream fails (throws std::ios_base::failure) after that many bytes; -1 = never
     uint64_t ceiling{0};
     int errno_before{0};
+    int cwd{0};  // working directory of the process during the call: 0 = unchanged, 1 "/", 2 "/usr", 3 "/var"
     bool is_xml() const { return entry == E_XML_BUFFER || entry == E_XML_FILE || entry == E_XML_FD; }
     std::string str() const;
 };
